@@ -17,7 +17,20 @@ use crate::core::*;
 use crate::execs::*;
 
 /// (text, detached)
-pub const SNIPPETS: [(&str, bool); 47] = [
+pub const SNIPPETS: [(&str, bool); 57] = [
+    // things the state carrier itself depends on: external programs found through PATH, names of commands it calls
+    ("PATH=/nonexistent", false),
+    ("grep() { echo mock-grep; }", false),
+    ("cd() { builtin cd \"$@\" && echo \"now in ${PWD##*/}\"; }", false),
+    ("alias cd='pushd'", false),
+    // variables that bash initialises itself; export attribute of an inherited variable; options reset by other options
+    ("unset IFS", false),
+    ("export -n HOME", false),
+    ("set -E", false),
+    // attributes: name reference, lower-casing, exported array
+    ("declare -n ref=X", false),
+    ("declare -l L=ABC", false),
+    ("ref=via-ref 2>/dev/null || true", false),
     // the test case installs its own EXIT trap (scrut carries the state in an EXIT trap of its own)
     ("trap 'true' EXIT; export T=1", false),
     ("set -o pipefail", false),
@@ -75,14 +88,14 @@ pub const SNIPPETS: [(&str, bool); 47] = [
     ("Y=\"${Y:-}+\"; export Y", false),
 ];
 
-pub const PROBE: &str = r#"declare -p X Y Z arr m n IFS TMPFILE LANG_CODE code HOME OLDPWD R T 2>/dev/null || true
+pub const PROBE: &str = r#"declare -p X Y Z arr m n IFS TMPFILE LANG_CODE code HOME OLDPWD R T ref L 2>/dev/null || true
 declare -f af || true
 af 2>/dev/null || true
 declare -f f || true
 declare -f xg || true
 xg a 2>/dev/null || true
 alias g 2>/dev/null || true
-set +o | grep -E ' (noclobber|nounset|noglob|errexit|pipefail)$'
+set +o | while read -r a b c; do case "$c" in noclobber|nounset|noglob|errexit|pipefail|errtrace) builtin echo "$a $b $c";; esac; done
 shopt -p extglob nullglob || true
 echo "PWD=$PWD"
 dirs -l -p
